@@ -71,7 +71,7 @@ Definition SIG_ADDRESS := 6.           (* an event with an unknown source or a w
 Definition svc_port (svc conn : N) : N :=
   if svc =? SVC_LDAP then 389 else if svc =? SVC_FTP then 21 else if svc =? SVC_SMTP then 25
   else if svc =? SVC_TFTP then 69 else if svc =? SVC_TELNET then 23 else if svc =? SVC_REDIS then 6379
-  else if svc =? SVC_MEMCACHED then 11211 else if svc =? SVC_HTTP then 80
+  else if svc =? SVC_MEMCACHED then 11211 else if svc =? SVC_HTTP then 80 else if svc =? SVC_MCUDP then 11211
   else (* SVC_SMTP2 *) if N.even conn then 587 else 25.
 
 Fixpoint dedup (l : list N) : list N :=
@@ -90,10 +90,10 @@ Definition step_event_elsewhere (p : (N * input) * outs) : bool :=
 Definition reps_eqb := list_eqb N.eqb.
 Definition evs_eqb := list_eqb ev_eqb.
 
-(* for tftp the limiter is keyed by IP on purpose: the session-alone comparison is made
+(* for tftp and memcached/udp the limiter is keyed by IP on purpose: the session-alone comparison is made
    for clients whose IP no other client of the scenario shares *)
 Definition comparable (svc : N) (tr : list (N * input)) (i : N) : bool :=
-  if svc =? SVC_TFTP
+  if (svc =? SVC_TFTP) || (svc =? SVC_MCUDP)
   then forallb (fun j => (j =? i) || negb (ip_of j =? ip_of i)) (trace_ids tr)
   else true.
 
